@@ -22,8 +22,14 @@ import signal
 import warnings
 from fractions import Fraction as F
 
+from concurrent.futures import ThreadPoolExecutor
+
 from ..core import digest
 from ..tlc import run_tlc, TLCFailure
+
+# TLC runs are subprocesses: independent ones are started side by side (at most three at a time, heap 3g each)
+# while the main thread drives the real code; results are accounted for in the main thread.
+_POOL = ThreadPoolExecutor(max_workers=3)
 
 # ================================================================================================
 # part 1: grid game
@@ -83,8 +89,8 @@ TRACE_INV_CLAUSES = {
     "TrClosed": {"closure", "malformed"},
 }
 
-SIZES_QUICK = ([(2, 1), (3, 1), (3, 1), (1, 3)] + [(2, 2)] * 6 + [(3, 2)] * 6 + [(2, 3)] * 5 + [(3, 3)] * 9
-               + [(4, 2), (4, 2), (2, 4)] + [(4, 3)] * 3 + [(3, 4)] * 2 + [(4, 4)] * 2)
+SIZES_QUICK = ([(2, 1), (3, 1), (3, 1), (1, 3)] + [(2, 2)] * 6 + [(3, 2)] * 8 + [(2, 3)] * 6 + [(3, 3)] * 12
+               + [(4, 2), (4, 2), (2, 4)] + [(4, 3)] * 4 + [(3, 4)] * 2 + [(4, 4)] * 2)
 FINE_LIMIT = 40
 FENCE_PROBS = [(1, 2), (0, 1), (1, 4), (3, 4), (1, 1), (1, 3), (7, 10), (1, 2)]
 
@@ -447,7 +453,7 @@ def spec_dist(rec):
 
 
 # ---------------------------------------------------------------------------------- the game pipeline
-def game_pipeline(ctx, recs, *, selftest_expect=None):
+def game_pipeline(ctx, recs, *, selftest_expect=None, tag=""):
     """recs: output of record_layout for every layout.  Runs MC + trace validation, judges."""
     layouts = [spec_layout(r["lay"], r["states"], r["capped"]) for r in recs]
     traces = []
@@ -467,9 +473,12 @@ def game_pipeline(ctx, recs, *, selftest_expect=None):
         tmeta.append((li, None))
     batch = {"layouts": layouts, "traces": traces}
 
-    # ---- MC: the reference machine over the same layouts
-    res = run_tlc(ctx.workdir / "game_mc", "C18_GridGame", GAME_CFG, files={"batch.json": batch},
-                  env={"BATCH_FILE": "batch.json"}, coverage=(ctx.tier == "thorough"), timeout=1500)
+    # ---- MC: the reference machine over the same layouts;  B: trace validation of the recorded behaviour
+    f_mc = _POOL.submit(run_tlc, ctx.workdir / f"game_mc{tag}", "C18_GridGame", GAME_CFG, files={"batch.json": batch},
+                        env={"BATCH_FILE": "batch.json"}, coverage=(ctx.tier == "thorough"), timeout=1500, heap="3g")
+    f_tr = _POOL.submit(run_tlc, ctx.workdir / f"game_trace{tag}", "C18_GridGameTrace", TRACE_CFG, files={"batch.json": batch},
+                        env={"BATCH_FILE": "batch.json"}, timeout=1500, heap="3g")
+    res = f_mc.result()
     ctx.add_tlc(res, "mc: reference machine of next_state_dist over all reachable states x 25 joint actions")
     bad = [v for v in res.violated if v in GAME_INVS]
     if bad:
@@ -483,9 +492,7 @@ def game_pipeline(ctx, recs, *, selftest_expect=None):
     if selftest_expect:
         selftest_expect(expect)
 
-    # ---- B: trace validation of the recorded behaviour
-    tres = run_tlc(ctx.workdir / "game_trace", "C18_GridGameTrace", TRACE_CFG, files={"batch.json": batch},
-                   env={"BATCH_FILE": "batch.json"}, timeout=1500)
+    tres = f_tr.result()
     ctx.add_tlc(tres, "trace: every recorded (state, joint action, outcome) against the allowed-move relation")
     verdicts = {v["tid"]: v for v in tres.records}
     if len(verdicts) != len(traces):
@@ -652,7 +659,7 @@ def judge_game_errors(ctx, recs):
 def make_layouts(rng, tier):
     sizes = list(SIZES_QUICK)
     if tier == "thorough":
-        sizes = sizes * 6 + [(4, 4)] * 4 + [(4, 3)] * 4 + [(5, 3), (3, 5)]
+        sizes = sizes * 5 + [(4, 4)] * 4 + [(4, 3)] * 4 + [(5, 3), (3, 5)]
     return [rand_layout(rng, W, H) for (W, H) in sizes] + handmade_layouts()
 
 
@@ -696,7 +703,7 @@ def run_game(ctx):
     good = [r for r in recs if not r["error"]]
     chunk = 30 if ctx.tier == "quick" else 40
     for k in range(0, len(good), chunk):
-        game_pipeline(ctx, good[k:k + chunk])
+        game_pipeline(ctx, good[k:k + chunk], tag=str(k))
     for r in good[:2]:
         ctx.sample({"layout": r["string"], "options": {k: r["lay"][k] for k in ("PN", "PD", "hack", "GR", "SC", "CC")},
                     "reachable_states": len(r["states"]),
@@ -1083,10 +1090,20 @@ def factor_nontrivial(case):
     return len(t1["rows"]) + len(t2["rows"]) > 2
 
 
-def run_factor_batch(ctx, cases, *, mutate_expect=None, real=None):
+def factor_batch_tlc(ctx, cases, tag=""):
     batch = [{"tabs": c["tabs"], "prog": c["prog"], "top": c["top"]} for c in cases]
-    res = run_tlc(ctx.workdir / "factor_batch", "C18_Factor", FACTOR_CFG, files={"batch.json": batch},
-                  env={"BATCH_FILE": "batch.json", "MODE": "batch", "EXH": "none"}, coverage=(ctx.tier == "thorough"))
+    return run_tlc(ctx.workdir / f"factor_batch{tag}", "C18_Factor", FACTOR_CFG, files={"batch.json": batch},
+                   env={"BATCH_FILE": "batch.json", "MODE": "batch", "EXH": "none"}, coverage=(ctx.tier == "thorough"), heap="3g")
+
+
+def factor_exh_tlc(ctx, family):
+    return run_tlc(ctx.workdir / f"factor_exh_{family}", "C18_Factor", FACTOR_CFG,
+                   env={"BATCH_FILE": "none", "MODE": "exh", "EXH": family}, timeout=3000, heap="3g")
+
+
+def run_factor_batch(ctx, cases, *, mutate_expect=None, real=None, res=None):
+    if res is None:
+        res = factor_batch_tlc(ctx, cases)
     ctx.add_tlc(res, "factor batch: sampled programs of DiscreteFactorTable operations, laws as invariants")
     bad = [v for v in res.violated if v in FACTOR_INVS]
     if bad:
@@ -1108,9 +1125,9 @@ def run_factor_batch(ctx, cases, *, mutate_expect=None, real=None):
 EXH_PATHS = {1: ("a",), 2: ("b",), 3: ("c",)}
 
 
-def run_factor_exh(ctx, family):
-    res = run_tlc(ctx.workdir / f"factor_exh_{family}", "C18_Factor", FACTOR_CFG,
-                  env={"BATCH_FILE": "none", "MODE": "exh", "EXH": family}, timeout=3000)
+def run_factor_exh(ctx, family, res=None):
+    if res is None:
+        res = factor_exh_tlc(ctx, family)
     ctx.add_tlc(res, f"factor exh/{family}: every pair of tables of the family x (product | mixture), laws as invariants")
     bad = [v for v in res.violated if v in FACTOR_INVS]
     if bad:
@@ -1132,16 +1149,26 @@ def run_factor_exh(ctx, family):
     return n
 
 
-def run_factor(ctx):
+def start_factor(ctx):
+    """Generates the factor cases and starts their TLC runs in the background."""
     rng = random.Random(ctx.seed * 2003 + 181)
-    n = 600 if ctx.tier == "quick" else 6000
+    n = 800 if ctx.tier == "quick" else 6000
     cases = make_factor_cases(rng, n)
-    for k in range(0, len(cases), 2000):
-        run_factor_batch(ctx, cases[k:k + 2000])
-    run_factor_exh(ctx, "small")
+    chunks = [cases[k:k + 2000] for k in range(0, len(cases), 2000)]
+    futs = [_POOL.submit(factor_batch_tlc, ctx, ch, str(i)) for i, ch in enumerate(chunks)]
+    exh = {"small": _POOL.submit(factor_exh_tlc, ctx, "small")}
     if ctx.tier == "thorough":
-        run_factor_exh(ctx, "large")
-    c = cases[0]
+        exh["large"] = _POOL.submit(factor_exh_tlc, ctx, "large")
+    return chunks, futs, exh
+
+
+def finish_factor(ctx, started):
+    chunks, futs, exh = started
+    for ch, f in zip(chunks, futs):
+        run_factor_batch(ctx, ch, res=f.result())
+    for family, f in exh.items():
+        run_factor_exh(ctx, family, res=f.result())
+    c = chunks[0][0]
     ctx.sample({"factor_case": {"tabs": c["tabs"][:2], "prog": [i["op"] for i in c["prog"]], "values": [repr(x) for x in VALUE_LABELS[c["lab"]]]}})
 
 
@@ -1160,8 +1187,9 @@ def run(ctx):
     ]
     with warnings.catch_warnings():
         warnings.simplefilter("ignore")
+        started = start_factor(ctx)          # TLC on the factor specs runs while the real game is being recorded
         run_game(ctx)
-        run_factor(ctx)
+        finish_factor(ctx, started)
 
 
 def replay(ctx, case):
